@@ -64,6 +64,7 @@ type hObs struct {
 	NewCode   *world.Code
 	Now       time.Time
 	PreDump   string
+	Drift     string // store content changed behind the store interface (first observation in this history)
 	PrePresented, PreIssued int
 	IssuedBefore map[string]bool
 }
@@ -216,6 +217,8 @@ func (o hOpts) model(monitors ...hMonitor) seqx.Model {
 			if res.Crashed {
 				w.CrashRestart()
 			}
+			w.CheckDrift("after the check")
+			o.Drift = w.Drift
 			h.Last = res
 			o.Res = res
 			if ns := w.SessionFromSetCookie(res); ns != "" && ns != "deleted" {
@@ -466,7 +469,7 @@ func (o hOpts) model(monitors ...hMonitor) seqx.Model {
 				stale = true
 			}
 		}
-		fmt.Fprintf(&sb, "|stale=%v|dev=%d|crash=%v|rolled=%v", stale, h.Dev, w.Crashes > 0, w.Rolled)
+		fmt.Fprintf(&sb, "|stale=%v|dev=%d|crash=%v|rolled=%v|drift=%v", stale, h.Dev, w.Crashes > 0, w.Rolled, w.Drift != "")
 		if hs := hidden.Dump(w.Raw, "log", "clock", "mu", "sessions", "client", "absoluteSessionTimeout", "idleSessionTimeout"); hs != "{}" {
 			sb.WriteString("|hidden:" + hs)
 		}
